@@ -134,6 +134,55 @@ def char_value(text):
 
 
 # ------------------------------------------------------------------------------------ parser
+def str_value(text):
+    """code points of a (non-raw) Rust string literal token"""
+    if not (text.startswith('"') and text.endswith('"')):
+        raise Unsupported("raw / byte string literal")
+    body = text[1:-1]
+    out, i = [], 0
+    while i < len(body):
+        c = body[i]
+        if c != "\\":
+            out.append(ord(c)); i += 1; continue
+        d = body[i + 1]
+        if d in "nrt0\\\"'":
+            out.append({"n": 10, "r": 13, "t": 9, "0": 0, "\\": 92, '"': 34, "'": 39}[d]); i += 2
+        elif d == "x":
+            out.append(int(body[i + 2:i + 4], 16)); i += 4
+        elif d == "u":
+            j = body.index("}", i)
+            out.append(int(body[i + 3:j].replace("_", ""), 16)); i = j + 1
+        else:
+            raise Unsupported("escape in string literal")
+    return out
+
+
+def parse_format(fmt):
+    """pieces of a format string: ('lit', [code points]) | ('arg', spec) with spec in '', 'x', '02x', '04x'"""
+    pieces, cur, i = [], [], 0
+    while i < len(fmt):
+        c = fmt[i]
+        if c == ord("{") and i + 1 < len(fmt) and fmt[i + 1] == ord("{"):
+            cur.append(ord("{")); i += 2; continue
+        if c == ord("}") and i + 1 < len(fmt) and fmt[i + 1] == ord("}"):
+            cur.append(ord("}")); i += 2; continue
+        if c == ord("{"):
+            j = fmt.index(ord("}"), i)
+            spec = "".join(chr(x) for x in fmt[i + 1:j])
+            if spec not in ("", ":x", ":02x", ":04x"):
+                raise Unsupported("format specification {%s}" % spec)
+            if cur:
+                pieces.append(("lit", cur)); cur = []
+            pieces.append(("arg", spec.lstrip(":")))
+            i = j + 1; continue
+        if c == ord("}"):
+            raise Unsupported("unbalanced } in a format string")
+        cur.append(c); i += 1
+    if cur:
+        pieces.append(("lit", cur))
+    return pieces
+
+
 class Parser:
     def __init__(self, toks, pos=0):
         self.t = toks
@@ -686,6 +735,17 @@ class Parser:
         if name in ("panic", "unreachable", "unimplemented", "todo"):
             self.skip_to(close)
             return ("panic",)
+        if name == "format":
+            tk = self.next()
+            if tk[0] != "str":
+                raise Unsupported("format! without a literal format string")
+            args = []
+            while self.accept(","):
+                if self.at(close):
+                    break
+                args.append(self.expr())
+            self.expect(close)
+            return ("format", str_value(tk[1]), args)
         if name == "vec":
             items = []
             while not self.at(close):
@@ -1429,6 +1489,8 @@ class FnTranslator:
             return T(e[2]) if e[2] else None
         if k == "charlit":
             return T("char")
+        if k in ("strlit", "format"):
+            return T("String")
         if k == "bool":
             return T("bool")
         if k == "path":
@@ -1483,6 +1545,8 @@ class FnTranslator:
                     return self.ty_of(e[2][0], env)
                 if len(p) == 2 and p[0] in ("Rc", "Box") and p[1] == "new" and len(e[2]) == 1:
                     return self.ty_of(e[2][0], env)
+                if p == ["char", "from_u32"] and len(e[2]) == 1:
+                    return T("Option", T("char"))
                 info = self.lookup_fn(p)
                 if info:
                     return info["full_ret"]
@@ -1524,6 +1588,8 @@ class FnTranslator:
                     return rt[2][0]
                 if is_str(rt) and m == "chars":
                     return T("slice", T("char"))
+                if (is_str(rt) or rt[1] == "char") and m in ("to_string", "to_owned") and not e[3]:
+                    return T("String")
                 if is_deque(rt):
                     if m == "pop_front":
                         return T("Option", rt[2][0])
@@ -1717,6 +1783,35 @@ class FnTranslator:
             return self.lit(e[1], T(e[2]) if e[2] else want)
         if k == "charlit":
             return "%d" % e[1]
+        if k == "strlit":
+            return "[" + "; ".join("%d" % c for c in str_value(e[1])) + "]"
+        if k == "format":
+            parts, args = [], list(e[2])
+            for kind_, v in parse_format(e[1]):
+                if kind_ == "lit":
+                    parts.append("[" + "; ".join("%d" % c for c in v) + "]")
+                    continue
+                if not args:
+                    raise Unsupported("format!: more placeholders than arguments")
+                a = args.pop(0)
+                at = self.ty_of(a, env)
+                av = self.pure(a, env)
+                if av is None:
+                    return None
+                if v == "":
+                    if at is not None and at[0] == "ty" and at[1] == "char":
+                        parts.append("[%s]" % av)
+                    elif is_str(at):
+                        parts.append(av)
+                    else:
+                        raise Unsupported("format!: {} at type %s" % (at,))
+                else:
+                    if at is None or at[0] != "ty" or at[1] not in ("u32", "char"):
+                        raise Unsupported("format!: {:%s} at type %s" % (v, at))
+                    parts.append("(fmt_hex %d %s)" % ({"x": 0, "02x": 2, "04x": 4}[v], av))
+            if args:
+                raise Unsupported("format!: unused arguments")
+            return "(" + " ++ ".join(parts or ["[]"]) + ")"
         if k == "bool":
             return "true" if e[1] else "false"
         if k == "path":
@@ -1840,6 +1935,8 @@ class FnTranslator:
                 return "%s_default" % name
             if len(p) == 2 and p[0] in ("Rc", "Box") and p[1] == "new" and len(args) == 1:
                 return args[0]
+            if p == ["char", "from_u32"] and len(args) == 1:
+                return "(char_from_u32 %s)" % args[0]
             if len(p) == 2 and p == ["Vec", "new"]:
                 return "[]"
             if len(p) == 2 and p == ["Vec", "with_capacity"] and len(args) == 1:
@@ -1866,6 +1963,11 @@ class FnTranslator:
                 return None if r0 is None else "(list_%s_opt %s)" % (m, r0)
             if m == "chars" and is_str(rt):
                 return self.pure(e[1], env)
+            if m in ("to_string", "to_owned") and not e[3] and is_str(rt):
+                return self.pure(e[1], env)
+            if m == "to_string" and not e[3] and rt is not None and rt[0] == "ty" and rt[1] == "char":
+                r0 = self.pure(e[1], env)
+                return None if r0 is None else "[%s]" % r0
             if (is_deque(rt) or is_intset(rt)) and m in ("is_empty", "len") and not e[3]:
                 r0 = self.pure(e[1], env)
                 if r0 is None:
@@ -3175,6 +3277,12 @@ MODULES = {
         "tparams": {"T": ("ty", "usize", [])},        # the instance BfsQueue<usize> (Automaton::remove_unreachable_states)
         "consts": [],
         "functions": [("BfsQueue", None, f) for f in ("new", "with_capacity", "push", "push_all", "is_empty", "len", "pop")],
+    },
+    "StrPrintGen": {
+        "files": ["smt_strings.rs"],
+        "types": [],
+        "consts": ["MAX_CHAR"],
+        "functions": [(None, None, "smt_char_as_string"), (None, None, "char_to_smt")],
     },
     "PartitionGen": {
         "files": ["character_sets.rs", "smt_strings.rs", "errors.rs"],
